@@ -110,7 +110,7 @@ def oracle(rng, tier):
 
 def correspondence(tier, seed):
     import corr_numeric
-    budget = {'curve': 40, 'convert': 10}
+    budget = {'curve': 40, 'convert': 10, 'curvemetrics': 20}
     if tier == 'thorough':
         budget = {k: v * 12 for k, v in budget.items()}
     return corr_numeric.run(seed, budget, nmax=30 if tier == 'quick' else 200, tag='C09')
